@@ -381,16 +381,29 @@
         self.last_flush_index == o.last_flush_index, self.split_off_index == o.split_off_index,
 @@ LogInnerManager::strip_log_to loop 1 body_exit
     proof { assert(self.indexs@ =~= ix.take(ix.len() - it.index@ - 1)); }
-@@ LogInnerManager::strip_log_to before_stmt 6
-    proof {
-        let a0 = o.index_file.contents();
-        let a1 = self.index_file.contents();
-        assert forall|i: int| 0 <= i < a0.len() implies #[trigger] a1[i] == (if self.index_cursor <= i < o.index_cursor { 0u8 } else { a0[i] }) by {
-            if pop_index_count > 0 && self.index_cursor <= i < o.index_cursor {
-                assert(a1.subrange(self.index_cursor as int, o.index_cursor as int)[i - self.index_cursor] == a1[i]);
-            }
-        }
-    }
+@@ LogInnerManager::strip_log_to crashpoints write_all set_len
+@@ LogInnerManager::strip_log_to crash_inv
+    // C04: the disk image at crash point $N is a prefix of the log as it was, at least as long as the cut asks for, the records
+    // below the cut byte for byte (for removals within the 0xffff records the reopen scan walks behind the last index entry)
+    proof {   // @C04
+        let vx_k = (end_index - o.start_index) as nat;   // @C04
+        let vx_a0 = o.index_file.contents(); let vx_a1 = self.index_file.contents();   // @C04
+        let vx_d0 = o.data_file.contents(); let vx_d1 = self.data_file.contents();   // @C04
+        let vx_nc = o.index_cursor - idx_bytes_after(ix, p);   // @C04
+        let vx_dc = 4096 + scan(o.recs(), vx_k).0;   // @C04
+        lemma_idx_bytes_bound(ix, p);   // @C04
+        assert forall|i: int| 0 <= i < vx_a0.len() implies #[trigger] vx_a1[i] == (if vx_nc <= i < o.index_cursor { 0u8 } else { vx_a0[i] }) by {   // @C04
+            if vx_nc <= i < o.index_cursor { assert(vx_a1.subrange(vx_nc as int, o.index_cursor as int)[i - vx_nc] == vx_a1[i]); }   // @C04
+        }   // @C04
+        if vx_d1 != vx_d0 {   // @C04
+            assert forall|i: int| 0 <= i < vx_d0.len() implies #[trigger] vx_d1[i] == (if i >= vx_dc { 0u8 } else { vx_d0[i] }) by {   // @C04
+                if vx_dc <= i < o.data_cursor { assert(vx_d1.subrange(vx_dc as int, o.data_cursor as int)[i - vx_dc] == vx_d1[i]); }   // @C04
+                else if i >= o.data_cursor { assert(vx_d0[i] == 0u8); }   // @C04
+            }   // @C04
+        }   // @C04
+        if o.msg_count - (ix[p].log_index - o.start_index) <= 0xffff { lemma_crash_strip_step(o, *self, p, vx_k); }   // @C04
+    }   // @C04
+    assert(o.msg_count - (ix[p].log_index - o.start_index) <= 0xffff ==> crash_ok_strip(o, self.disk_image(), (end_index - o.start_index) as nat));   // @C04
 @@ LogInnerManager::strip_log_to before_stmt 7
     let ghost jj = (ix[p].log_index - o.start_index) as nat;
     let ghost cnt = (end_index - ix[p].log_index) as nat;
@@ -414,7 +427,17 @@
         lemma_scan_mono(s0, (jj + cnt) as nat, k0);
         lemma_scan_split(s0, jj, cnt);
     }
-@@ LogInnerManager::strip_log_to before_stmt 14
+@@ LogInnerManager::strip_log_to before_tail
+    // (the shapes of the two files after both zeroing writes, whatever their order)
+    proof {
+        let a0 = o.index_file.contents();
+        let a1 = self.index_file.contents();
+        assert forall|i: int| 0 <= i < a0.len() implies #[trigger] a1[i] == (if self.index_cursor <= i < o.index_cursor { 0u8 } else { a0[i] }) by {
+            if pop_index_count > 0 && self.index_cursor <= i < o.index_cursor {
+                assert(a1.subrange(self.index_cursor as int, o.index_cursor as int)[i - self.index_cursor] == a1[i]);
+            }
+        }
+    }
     proof {
         let d0 = o.data_file.contents();
         let d1 = self.data_file.contents();
@@ -426,7 +449,6 @@
             }
         }
     }
-@@ LogInnerManager::strip_log_to before_tail
     proof {
         let k = (end_index - o.start_index) as nat;
         assert(self.indexs@ =~= ix.take(p + 1));
